@@ -447,4 +447,37 @@ Section Term.
     - eapply allle_mono; [|exact IHl]. lia.
     - eapply allle_mono; [|exact IHh]. lia.
   Qed.
+
+  (* ---------- C12: ite_constant always returns (it allocates nothing, so nothing can stop it) ---------- *)
+  Theorem itec_terminates L : forall n k, (n + 1 <= k)%nat ->
+    forall s f g h tf tg th, Inv s -> V s f tf -> V s g tg -> V s h th -> allle L tf -> allle L tg -> allle L th ->
+    (mu L tf tg th <= n)%nat -> itec k s f g h <> None.
+  Proof.
+    induction n as [|n IH]; intros k Hk s f g h tf tg th HI Vf Vg Vh Lf Lg Lh Hmu; (destruct k as [|k]; [lia|]); cbn [itec].
+    all: destruct (is_one f) eqn:C1; [discriminate|]; destruct (is_zero f) eqn:C2; [discriminate|].
+    all: repeat match goal with |- (if ?c then _ else _) <> None => destruct c; [discriminate|] end.
+    all: destruct (cget s (KIte f g h)); [discriminate|].
+    all: pose proof (nonterm_of _ C1 C2) as Hfn.
+    all: change (if top s h =? 0 then if top s g =? 0 then top s f else N.min (top s f) (top s g)
+            else N.min (if top s g =? 0 then top s f else N.min (top s f) (top s g)) (top s h))
+      with (mtop (top s f) (top s g) (top s h)).
+    all: destruct (mtop_is_minlev L s f g h tf tg th HI Vf Vg Vh Hfn Lf Lg Lh) as [Emin HmL].
+    - exfalso. unfold mu in Hmu. rewrite <- Emin in Hmu. lia.
+    - destruct (mtop_ok s f g h tf tg th HI Vf Vg Vh Hfn) as (Hm0 & Hm1 & Hm2 & Hm3).
+      set (m := mtop (top s f) (top s g) (top s h)) in *.
+      destruct (top_cofactors s f m) as [f0 f1] eqn:T1. destruct (top_cofactors s g m) as [g0 g1] eqn:T2. destruct (top_cofactors s h m) as [h0 h1] eqn:T3.
+      destruct (tc_shape s f m tf f0 f1 HI Vf Hm1 T1) as (a0 & a1 & Va0 & Va1 & Aa0 & Aa1 & Sa).
+      destruct (tc_shape s g m tg g0 g1 HI Vg Hm2 T2) as (b0 & b1 & Vb0 & Vb1 & Ab0 & Ab1 & Sb).
+      destruct (tc_shape s h m th h0 h1 HI Vh Hm3 T3) as (c0 & c1 & Vc0 & Vc1 & Ac0 & Ac1 & Sc).
+      destruct (lev_child L m tf a0 a1 Lf HmL Aa0 Aa1 Sa) as (La0 & La1 & Ea0 & Ea1).
+      destruct (lev_child L m tg b0 b1 Lg HmL Ab0 Ab1 Sb) as (Lb0 & Lb1 & Eb0 & Eb1).
+      destruct (lev_child L m th c0 c1 Lh HmL Ac0 Ac1 Sc) as (Lc0 & Lc1 & Ec0 & Ec1).
+      assert (Hmu0 : (mu L a0 b0 c0 <= n)%nat) by (unfold mu in *; rewrite <- Emin in Hmu; lia).
+      assert (Hmu1 : (mu L a1 b1 c1 <= n)%nat) by (unfold mu in *; rewrite <- Emin in Hmu; lia).
+      pose proof (IH k ltac:(lia) s f1 g1 h1 a1 b1 c1 HI Va1 Vb1 Vc1 La1 Lb1 Lc1 Hmu1) as H1.
+      pose proof (IH k ltac:(lia) s f0 g0 h0 a0 b0 c0 HI Va0 Vb0 Vc0 La0 Lb0 Lc0 Hmu0) as H0.
+      destruct (itec k s f1 g1 h1) as [[t|]|]; [|discriminate|contradiction].
+      destruct (itec k s f0 g0 h0) as [e|]; [|contradiction]. destruct (obool_eqb e (Some t)); discriminate.
+  Qed.
+  Print Assumptions itec_terminates.
 End Term.
